@@ -12,7 +12,9 @@ from .world import World
 SAFE_NS = [("ex", "http://example.org/"), ("foo", "http://foo.org/ns#"), ("ex2", "http://example.org/2/"),
            ("z", "urn:z:"), ("w3", "http://www.w3.org/other/")]
 CLASH_NS = [("ex", "http://other/"), ("ex_1", "http://a/b/"), ("dn", "http://dn/"), ("foo", "http://example.org/"),
-            ("prov", "http://notprov/"), ("xsd", "http://notxsd/")]
+            ("prov", "http://notprov/"), ("xsd", "http://notxsd/"),
+            # a third and a fourth namespace under one prefix: the second and third renaming (ex_1, ex_2, ...) in one scope
+            ("ex", "http://third.example/"), ("ex", "http://fourth.example/x#")]
 DEFAULT_URIS = ["http://default/", "http://example.org/", "http://default3.example/d#", "http://default4.example/"]
 PROV_EXTRA = ["type", "label", "value", "location", "role"]
 KIND_TO_FACTORY = {"Entity": ["entity", "collection"], "Activity": ["activity"], "Agent": ["agent"],
